@@ -289,13 +289,18 @@ impl Worker for W {
                     _ => "result-differs-from-solo",
                 };
                 let mut sg = sig(kind);
-                let text = got.short();
+                // the whole round counts: the thread compared first may be a victim of a panic
+                // in another thread (poisoned lock, "concurrent salsa query panicked")
+                let text = results.iter().map(|o| o.short()).collect::<Vec<_>>().join("\n");
+                if let Some((loc, _)) = crate::worker::take_panic() {
+                    sg["panic_location"] = json!(crate::worker::strip_repo(&loc));
+                }
                 sg["cause"] = json!(if text.contains("UndefinedBinding(\"std.") || text.contains("Could not find type 'std.") {
                     "std-type-not-yet-bound-during-parallel-import"
                 } else if text.contains("exit scope above current") || text.contains("Expected extern") || text.contains("Expected closure state") {
                     "frame-stack-mismatch"
-                } else if text.contains("PoisonError") {
-                    "poisoned-lock"
+                } else if text.contains("PoisonError") || text.contains("concurrent salsa query panicked") {
+                    "collateral-of-a-panicked-thread"
                 } else {
                     "other"
                 });
